@@ -365,28 +365,7 @@ decode_tags!(c10_decode_total_unknown32, [32]);
 // @verif stub=alloc::vec::Vec::<T>::with_capacity -> allocation monitor (asserts cap*size_of::<T>() <= 128*|input|+256, returns Vec::new())
 decode_tags!(c10_decode_total_unknown255, [255]);
 
-/// ARRAY header [28][len u32][dims u32] followed by N-9 symbolic bytes; if N >= 10 the first element's tag
-/// byte (offset 9, only reached when dims = 0) is the constant `E`.
-fn decode_array_one<const N: usize, const E: u8>() {
-    let mut buf: [u8; N] = kani::any();
-    buf[0] = 28;
-    if N >= 10 { buf[9] = E; }
-    unsafe { INPUT_LEN = N; }
-    let r = decode_value_bytes(&buf);
-    if let Ok((_, used)) = &r { assert!(*used <= N, "C10: decoder consumed more than the input"); }
-    kani::cover!(r.is_err());
-    std::mem::forget(r);
-}
-
-// @verif prop=C10 kernel=K2 tiers=quick,thorough timeout=1800 unwind=1 stubbing=yes mem=12 loops=decode_value:3
-// @verif what=decode_value on ARRAY headers with arbitrary element count and dimension count (both full u32): Ok/Err, no panic, and the two Vec::with_capacity requests stay proportional to the input
-// @verif fns=retain::{decode_value,RetainReader::*}
-// @verif bound=the 9-byte strings [28][len u32][dims u32] with len and dims arbitrary u32 (both allocation sites are reached; the element loop ends at the first truncated read)
-// @verif stub=alloc::vec::Vec::<T>::with_capacity -> allocation monitor (asserts cap*size_of::<T>() <= 128*|input|+256, returns Vec::new())
-// @verif outside=array inputs that contain element bytes (probed: one element exhausts 12 GB)
-#[kani::proof]
-#[kani::stub(std::vec::Vec::with_capacity, monitored_with_capacity)]
-fn c10_decode_total_array() {
-    // probed: adding the N = 10/11 variants (one element) exhausts 12 GB; they are outside the claim
-    decode_array_one::<9, 0>();
-}
+// (probed, not registered: decode_value on ARRAY headers - even the 9-byte input [28][len][dims] with only one
+//  of len/dims symbolic exhausts 12 GB: the arm owns a Vec<Value> whose drop glue CBMC explores for every
+//  variant on each early-return path. The two `Vec::with_capacity(count read from the file)` sites of the
+//  array arm are therefore OUTSIDE the claim; see DESIGN.md section 6, S5.)
